@@ -95,4 +95,24 @@ theorem realEph_tiles (y : Nat) (hy : y ≤ 9998) (hb : badYear y = false) : Til
     have hge : Rec.sFirst (Rec.slot a 0) ≤ yearEnd a := by omega
     omega
 
+
+/-- LIFTED FACT: every lunar year of the ephemeris has a leap month number ≤ 12 (all integers y). -/
+theorem realEph_leap_le (y : Int) : realEph.leap y ≤ 12 := by
+  simp only [realEph]
+  split
+  · decide
+  · split
+    · rename_i h1 h2
+      by_cases hlt : y.toNat < yearRecs.length
+      · have := allRec_spec 512 _ Gen.monthsChunks years_leap_fact y.toNat hlt
+        simp only [Bool.and_eq_true, decide_eq_true_eq] at this
+        have e : yearRecs.getD y.toNat 0 = yearRecs[y.toNat]'hlt := by
+          simp [List.getD, List.getElem?_eq_getElem hlt]
+        rw [e]; exact this.1
+      · have e : yearRecs.getD y.toNat 0 = 0 := by
+          simp only [List.getD]
+          rw [List.getElem?_eq_none (by omega)]; rfl
+        rw [e]; decide
+    · decide
+
 end Tyme
